@@ -95,7 +95,7 @@ def check_property(prop,tier,repo,seed,only=None,verbose=False):
 
 def report(prop,tier,seed,repo,meta,results,extras,known,lock,t0,verbose):
   outdir=os.path.join(VERIF,'out','replay'); os.makedirs(outdir,exist_ok=True)
-  violations=[]; known_hits={}; undecided=[]; errors=[]
+  violations=[]; known_hits={}; undecided=[]; errors=[]; disagreements=[]
   n_obl=0; n_dis=0; solver_s=0.0; per_solver={}; functions=[]; samples=[]; bounded=[]; evals=0; cover_gaps=[]
   fewer=[]
   allres=list(results)+list(extras)
@@ -181,9 +181,11 @@ def report(prop,tier,seed,repo,meta,results,extras,known,lock,t0,verbose):
       allproved=all(o['status']=='proved' for o in r['obligations'])
       for f in samp['failures']:
         if 'error' in f: errors.append(f"sampling {r['key']}: {f['error']}")
-        elif allproved: errors.append(f"ENGINE/NATIVE DISAGREEMENT on {r['key']}: every obligation proved but the real function violates the contract on {f}")
+        elif allproved: disagreements.append(f"ENGINE/NATIVE DISAGREEMENT on {r['key']}: every obligation proved but the real function violates the contract on {f}")
       for cs,cnt in samp['per_case'].items():
         if cnt==0: cover_gaps.append(f"{r['key']}::{cs}")
+  # a proof that went through a callee contract which is itself violated in this run is not an engine defect
+  if disagreements and not violations and not known_hits: errors+=disagreements
   # open known findings that were not re-observed are simply not printed; fixed entries suppress nothing
   for kid,kf in known_hits.items():
     print(f"KNOWN-FINDING: property={prop} {kf['what']}")
